@@ -1,6 +1,9 @@
 import SJ.Proofs.FromValue
 import SJ.Model.FromValueRoutes
 import SJ.Proofs.Schema
+import SJ.Proofs.TypedAgree
+import SJ.Proofs.RoundTrip
+import SJ.Props.C03
 /-!
 # C16 — `from_value` agrees with the text deserialiser
 
@@ -10,10 +13,12 @@ Proved here, over the whole typed universe (`SJ.Spec.Schema`): the OWNED deseria
 (`from_value::<T>(v)`, `impl Deserializer for Value`) and the BORROWED one (`T::deserialize(&v)`,
 `impl Deserializer for &Value`) — two separate implementations in `src/value/de.rs`, two separate
 transcriptions in `SJ.Model.FromValue` — return the same outcome for every schema, every value and every
-configuration. NOT proved here: the third leg, `from_str::<T>(&to_string(&v))`; it needs the typed text
-machine (`deTyped`, de.rs's typed entry points), which is not part of this branch. Until it exists the
-three-way statement is carried by the correspondence run (`c16` op) whose executable specification
-compares the three real outcomes on every generated (schema, value) pair.
+configuration. The third leg, `from_str::<T>(&to_string(&v))`, is stated over the typed text model (`SJ.Model.Typed.deTypedTop`,
+de.rs's typed entry points) and proved for a staged schema fragment (`c16_text_agrees_partial`: bool, the twelve
+integer targets, unit, Option, newtype structs, Vec, fixed-length tuples); for the rest of the universe (strings,
+bytes, maps, structs, enums, floats, IgnoredAny, Value) the three-way statement is carried by the correspondence run
+(`c16` op), where the text leg is now COMPUTED by the model and compared with the crate's, and the executable
+specification compares the three real outcomes on every generated (schema, value) pair.
 -/
 namespace SJ.Props.C16
 open SJ SJ.Model.FromValue SJ.Proofs.FromValue
@@ -145,5 +150,61 @@ theorem c16_routing_tied : RoutingTied := by
 
 example : (SJ.Gen.routeOwned.lookup "deserialize_char") = some "->deserialize_string" := by rfl
 example : (SJ.Gen.routeRef.lookup "deserialize_char") = some "->deserialize_str" := by rfl
+
+/-- **C16, the text leg (`_partial`: staged by schema fragment).** For every schema built from bool, the twelve integer
+    targets (8–128 bit), unit / unit structs, `Option`, newtype structs, `Vec` and fixed-length tuples, and every value
+    without floats that a non-`arbitrary_precision` `Value` can hold, within the parser's depth budget: `to_string(v)`
+    succeeds and `from_str::<T>` of that text (typed deserializer + `end()`, any source) returns exactly what
+    `from_value::<T>(v)` returns, and fails whenever it fails — matching and mismatching values alike (wrong kinds,
+    out-of-range integers, arrays too short or too long, `null` for `Option`). Together with `c16_owned_borrowed` this
+    is the three-way statement on the fragment. Missing (named): strings / char / bytes and every map, struct and enum
+    target (they need the string sub-machine's round trip `parse(escape s) = s` over `runPfx`), float targets and float
+    values (need `ryu`'s shape beyond `ExtOK`), `IgnoredAny` and `Value` targets (need C01-completeness over `runPfx`),
+    `arbitrary_precision` (literal-backed numbers). The text is the one the serializer model writes (`c03_value`). -/
+theorem c16_text_agrees_partial (mcfg : Model.Machine.Cfg) (_hap : mcfg.ap = false) (src : Model.Machine.Src)
+    (ext : Spec.Program.Ext) (hext : Spec.Program.ExtOK ext) (ext' : Ext) (s : Schema) (hs : Proofs.Typed.agreeFrag s = true)
+    (v : JV) (hv : Spec.WF.shapeOK {} v = true ∧ Spec.WF.noFloat v = true)
+    (hd : mcfg.limitOff = true ∨ Spec.WF.depthJV v ≤ 127) :
+    ∃ bufs, Model.Ser.serCompact ext (Model.Ser.ofValue v) = .ok bufs ∧
+      (match fromValue { po := mcfg.po, fr := mcfg.fr, ap := false } ext' s v with
+       | .ok t => Model.Typed.deTypedTop { cfg := mcfg, src := src } s bufs.flatten = .ok t
+       | .error _ => ∀ t, Model.Typed.deTypedTop { cfg := mcfg, src := src } s bufs.flatten ≠ .ok t) := by
+  have hl : Spec.Image.valueLitsOK v = true := SJ.Proofs.RoundTrip.valueLitsOK_of_shapeOK _ v hv.1
+  obtain ⟨⟨bufs, hser, htext⟩, _⟩ := SJ.Props.C03.c03_value ext hext v hl
+  refine ⟨bufs, hser, ?_⟩
+  rw [htext]
+  have hag := Proofs.Typed.agree_deTyped ext hext (env := { cfg := mcfg, src := src }) rfl
+    { po := mcfg.po, fr := mcfg.fr, ap := false } rfl ext' (Model.Typed.Schema.size s + 1) s (by omega) hs 0 v hv
+    (by rcases hd with h | h
+        · exact .inl h
+        · exact .inr (by omega)) [] 0 (.inl rfl)
+  simp only [List.append_nil] at hag
+  unfold Proofs.Typed.T at hag
+  unfold Model.Typed.deTypedTop
+  cases hfv : fromValue { po := mcfg.po, fr := mcfg.fr, ap := false } ext' s v with
+  | ok t =>
+    rw [hfv] at hag
+    simp only at hag ⊢
+    rw [hag]
+    simp [Model.Stream.skipWs]
+  | error e =>
+    rw [hfv] at hag
+    simp only at hag ⊢
+    intro t
+    cases hde : Model.Typed.deTyped { cfg := mcfg, src := src } (Model.Typed.Schema.size s + 1) 0 s
+        (Spec.Image.render (Spec.Image.imageOfValue ext v)) 0 with
+    | ok x r p => exact absurd hde (hag x r p)
+    | _ => simp
+
+-- `[[1,null],[2,true]]` as `Vec<(u8, Option<bool>)>`: the text leg returns what `from_value` returns; `[256]` fails on both sides
+example : fromValue {} {} (.seq (.tuple [.int .u8, .option .bool]))
+    (.arr [.arr [.num (.pos 1), .null], .arr [.num (.pos 2), .bool true]])
+    = .ok (.seq [.seq [.int 1, .none], .seq [.int 2, .some (.bool true)]]) := by rfl
+example : (match Model.Typed.deTypedTop {} (.seq (.tuple [.int .u8, .option .bool]))
+      [0x5b, 0x5b, 0x31, 0x2c, 0x6e, 0x75, 0x6c, 0x6c, 0x5d, 0x2c, 0x5b, 0x32, 0x2c, 0x74, 0x72, 0x75, 0x65, 0x5d, 0x5d] with
+    | .ok t => t == .seq [.seq [.int 1, .none], .seq [.int 2, .some (.bool true)]] | _ => false) = true := by decide +kernel
+example : fromValue {} {} (.seq (.int .u8)) (.arr [.num (.pos 256)]) = .error () := by rfl
+example : (match Model.Typed.deTypedTop {} (.seq (.int .u8)) [0x5b, 0x32, 0x35, 0x36, 0x5d] with | .data (some 4) => true | _ => false) = true := by
+  decide +kernel
 
 end SJ.Props.C16
